@@ -70,11 +70,7 @@ impl BigUint {
 //@ end
 //@ stub u_bitq/trailing_zeros
 //@ stub u_bitq/bit
-    //@ assume BigUint::clone_from : `self.data.clone_from(&other.data)` (Vec::clone_from has no vstd spec); contract: becomes a copy
-    #[verifier::external_body]
-    fn clone_from(&mut self, other: &Self)
-        ensures final(self).data@ == other.data@
-    { unimplemented!() }
+//@ stub u_core/clone_from
 }
 impl BitAndAssignSpecImpl<&BigUint> for BigUint {
     open spec fn obeys_bitand_assign_spec() -> bool { false }
